@@ -91,7 +91,7 @@ fn mutate(s: &str, kind: u8, arg: u8, other_prefix: &str) -> String {
     }
 }
 
-const BAD_CHANNELS: &[&str] = &["channel-", "channel-1x", "chan-1", "channel--1", "channel-18446744073709551616", "channel-+5", "channel-007", "Channel-1", "channel-1 ", "", "channel-1/2", "channel-١"];
+const BAD_CHANNELS: &[&str] = &["channel-", "channel-1x", "chan-1", "channel--1", "channel-18446744073709551616", "channel-+5", "channel-007", "Channel-1", "channel-1 ", "", "channel-1/2", "channel-١", "channel-123-4", "channel-7-", "channel-7-x", "channel-1-2-3", "channel-5-channel-6"];
 const BAD_IBC: &[&str] = &["ibc/", "ibc/ABC", "IBC/", "ibc", "", "xibc/"];
 const BAD_PREFIX: &[&str] = &["OSMO", "Osmo", "", "os mo", "osmo\u{7f}", "ośmo", "CELESTIA", "celestiA"];
 const BAD_DENOM: &[&str] = &["uti", "utia1", "u-tia", "", "milk TIA", "milkTIÄ", "abcd", "ABCD", "milkTIA ", " milkTIA", "milkTIA\n", "stTIA\t", "milk/TIA", "a/b/c", "milk.TIA", "milk_TIA", "milk:TIA", "9milk", "factory/x/milkTIA"];
